@@ -433,7 +433,8 @@ func execC33(r *Run) {
 			c.Bag = nil
 			r.NonTrivial = true
 			raw := len(wEnc(mtQueryResponse, &wQueryResponse{LTime: lt, ID: id, From: nd.Name, Payload: payload}))
-			r.Logf("respond payload=%d raw=%d rsl=%d relay=%d -> err=%v packets=%d", s.J, raw, rsl, r.C.P["relay"], err, len(sent))
+			// (how many relayed copies go out depends on Go's map iteration order: not logged)
+			r.Logf("respond payload=%d raw=%d rsl=%d relay=%d -> err=%v sent=%v", s.J, raw, rsl, r.C.P["relay"], err != nil, len(sent) > 0)
 			if raw > rsl {
 				r.Fault("response-over-limit")
 			}
@@ -614,7 +615,9 @@ func execC35(r *Run) {
 				}
 			}
 			k := s.K
-			r.Logf("reply k=%d respond=%v members=%d eligible=%d -> direct=%d relays=%d", k, s.F, len(members), len(eligible), len(direct), nrel)
+			// (the number of relays found within kRandomMembers' probe budget depends on Go's map
+			// iteration order of the member list: not part of the canonical log)
+			r.Logf("reply k=%d respond=%v members=%d eligible=%d -> direct=%d", k, s.F, len(members), len(eligible), len(direct))
 			if len(direct) != 1 {
 				r.Fail("direct-reply-count", "C35 direct-count", "%d direct replies sent to the origin, expected exactly 1", len(direct))
 			}
